@@ -234,10 +234,12 @@ def _worker_main():
 # ====================================================================================================== parent side: pool of children
 class _Worker:
     TIMEOUT = 240
+    RECYCLE = 70                       # the machine code of every compiled look-up function stays in the child: replace it regularly
 
     def __init__(self):
         self.p = None
         self.buf = b''
+        self.n = 0
         self.lock = threading.Lock()
 
     def start(self):
@@ -246,6 +248,7 @@ class _Worker:
         self.p = subprocess.Popen([sys.executable, str(Path(__file__).resolve()), '--worker'], stdin=subprocess.PIPE,
                                   stdout=subprocess.PIPE, env=env)
         self.buf = b''
+        self.n = 0
 
     def stop(self):
         if self.p is not None:
@@ -271,8 +274,11 @@ class _Worker:
 
     def call(self, case):
         with self.lock:
+            if self.p is not None and self.n >= self.RECYCLE:
+                self.stop()
             if self.p is None or self.p.poll() is not None:
                 self.start()
+            self.n += 1
             try:
                 self.p.stdin.write((json.dumps(case) + '\n').encode())
                 self.p.stdin.flush()
